@@ -21,8 +21,11 @@ def build_world():
         return w
     import theories
     import contracts
+    order = {n: i for i, n in enumerate(getattr(theories, "ORDER", []))}
     for pkg in (theories, contracts):
-        for m in sorted(pkgutil.iter_modules(pkg.__path__), key=lambda m: m.name):
+        mods = sorted(pkgutil.iter_modules(pkg.__path__),
+                      key=lambda m: (order.get(m.name, 999), m.name))
+        for m in mods:
             mod = importlib.import_module(f"{pkg.__name__}.{m.name}")
             if hasattr(mod, "install"):
                 mod.install(w)
